@@ -149,18 +149,18 @@ theorem crashOf_some {x : Except Crash Outcome} {c : Crash} (h : crashOf x = som
   · cases h
 
 /-- the hypotheses are satisfiable and the statements are not vacuous: a concrete parse that returns a tree -/
-example : crashOf (parseFile ⟨true, true⟩ (fun _ => false) [97, 58, 32, 98] false) = none := by decide +kernel
+example : crashOf (parseFile ⟨true, true, false⟩ (fun _ => false) [97, 58, 32, 98] false) = none := by decide +kernel
 
 /-- **counterexample on the unchanged tree**: without the reset, `a: xx*${y}z*` drives the slice out of bounds —
     the Go parser panics with "slice bounds out of range [3:1]" on the same 12 bytes -/
 theorem C01_cx_pattern_slice :
-    parseFile ⟨false, false⟩ (fun _ => false) [97, 58, 32, 120, 120, 42, 36, 123, 121, 125, 122, 42] false
+    parseFile ⟨false, false, false⟩ (fun _ => false) [97, 58, 32, 120, 120, 42, 36, 123, 121, 125, 122, 42] false
       = .error .sliceOOB :=
   crashOf_some (by decide +kernel)
 
 /-- and with the reset the same input parses -/
 theorem C01_pattern_slice_fixed :
-    crashOf (parseFile ⟨true, false⟩ (fun _ => false) [97, 58, 32, 120, 120, 42, 36, 123, 121, 125, 122, 42] false)
+    crashOf (parseFile ⟨true, false, false⟩ (fun _ => false) [97, 58, 32, 120, 120, 42, 36, 123, 121, 125, 122, 42] false)
       = none := by decide +kernel
 
 end D2V.Text
